@@ -98,13 +98,21 @@ static vj::value handle(const vj::value& c) {
     ACC(add) ACC(multiply) ACC(maximum)
     if (op == "cumsum") return proj_any(view::cumsum(a, (int)g["axis"].as_int()));
     if (op == "cumprod") return proj_any(view::cumprod(a, (int)g["axis"].as_int()));
-    double mul = (double)g["mul"].as_int();
+    double mul = g.has("mul") ? (double)g["mul"].as_int() : 1.0;
     // dtype absent on a narrow integer source (args.etype i8 / u8): the statistics must not be folded in the element type
     if (g.has("etype")) {
         auto narrow = [&](auto tag) -> vj::value {
             using T = decltype(tag);
             auto k = c["data"][0].as_vec<long>(); std::vector<T> d; for (auto x : k) d.push_back((T)x);
             auto b = make_data<T>(c["shapes"][0].as_vec<long>(), d);
+            if (op == "sum" || op == "reduce_add") {
+                // an explicit result dtype wider than the source element type: the fold must run in the dtype
+                std::string dt = g["dtype"].as_str();
+                return with_args(g, [&](auto axis, auto init, auto keep) -> vj::value {
+                    if (dt == "i32") return proj_any(view::sum(b, axis, nm::int32, init, keep));
+                    if (dt == "i64") return proj_any(view::sum(b, axis, nm::int64, init, keep));
+                    return proj_any(view::sum(b, axis, nm::float64, init, keep)); });
+            }
             if (op == "mean") return with_args(g, [&](auto axis, auto, auto keep) { return scaled(view::mean(b, axis, nm::None, keep), mul, false); });
             if (op == "var") return with_args(g, [&](auto axis, auto, auto keep) { return scaled(view::var(b, axis, nm::None, 0, keep), mul, false); });
             if (op == "stddev") return with_args(g, [&](auto axis, auto, auto keep) { return scaled(view::stddev(b, axis, nm::None, 0, keep), mul, true); });
